@@ -82,6 +82,8 @@ pub enum Answer {
     DeferValue(Value),
     /// answer with a pending host promise, rejected later with this string
     DeferReject(String),
+    /// answer the order immediately with `undefined`
+    Undefined,
 }
 
 #[derive(Clone, Debug, Serialize, Deserialize, PartialEq)]
@@ -591,6 +593,7 @@ impl Run {
                     .cloned()
                     .unwrap_or(Answer::Value(Value::Null));
                 let result = match &ans {
+                    Answer::Undefined => Ok(RuntimeValue::unguarded(JsValue::Undefined)),
                     Answer::Value(v) => Ok(Self::json_to_rv(&mut h.interp, v)),
                     Answer::Error(m) => {
                         self.out.error_answers += 1;
